@@ -89,7 +89,7 @@ class Action:
 class Kernel:
     STEP_COST = 1e-4  # simulated seconds charged per step
 
-    def __init__(self, policy, max_steps=200000, livelock_events=200, livelock_seconds=20.0):
+    def __init__(self, policy, max_steps=200000, livelock_events=200, livelock_seconds=300.0):
         self.policy = policy
         self.tasks = []
         self.current = None
